@@ -76,6 +76,11 @@ def translate(repo=None):
     if sorted(f for f in jac_forms if not f.startswith("jacobian /")) != ["np.copy(jacobian)"] or len(quot) != 1:
         raise Unsupported("tell_dqd does not store (jacobian / norms | a copy of jacobian): %r" % jac_forms)
     quotient = q_expr(quot[0], {"jacobian": "g", "norms": "den"})
+    # the gradients are installed only after the arguments have been validated (a tell_dqd that raises installs nothing)
+    val = [n.lineno for n in ast.walk(td) if isinstance(n, ast.Call) and src(n.func) == "validate_batch"]
+    sto = [n.lineno for n in ast.walk(td) if isinstance(n, ast.Assign) and src(n.targets[0]) == "self._jacobian_batch"]
+    if len(val) != 1 or len(sto) != 1 or not val[0] < sto[0] or td.body[-1].lineno != sto[0]:
+        raise Unsupported("tell_dqd does not validate its arguments first and install the gradients as its LAST statement")
     tests = [n for n in ast.walk(td) if isinstance(n, ast.If) and src(n.test) == "self._normalize_grads"]
     if len(tests) != 1 or len(assigns(td, "self._jacobian_batch")) != 1 or src(one(td, "self._jacobian_batch")) != "jacobian":
         raise Unsupported("tell_dqd does not branch once on self._normalize_grads and store the result as the Jacobian")
